@@ -160,6 +160,14 @@ def generate(rng):
       programs[pid] = {"module": "main", "src": cp[1], "deps": [],
                        "exports": {}, "corpus": cp[0]}
       mains.append(pid)
+  if rng.random() < 0.6:
+    # snippets from pytype's own functional tests (one feature each)
+    for j in range(rng.randrange(1, 4)):
+      sp = proggen.snippet_program(rng, os.path.abspath(os.environ.get("VERIF_REPO", "/repo")))
+      if sp is not None:
+        programs["s%d" % j] = {"module": "main", "src": sp[1], "deps": [], "exports": {},
+                               "snippet": sp[0]}
+        mains.append("s%d" % j)
   if rng.random() < 0.2:
     # a BIG module (hundreds of small functions): whatever a process
     # accumulates per analysed function, this one accumulates a lot of
